@@ -1,5 +1,295 @@
 import Asn1Verif.Base.Text
-/- line protocol, stream `attr` — not implemented yet -/
+import Asn1Verif.Codegen.Attr
+/- line protocol, stream `attr` (C08): attribute printer and parser answered by the model -/
 namespace Driver.AttrStream
-def handle (_args : List String) : String := "bad-op"
+open Asn1Verif Asn1Verif.Text Asn1Verif.Codegen.Names Asn1Verif.Codegen.Attr
+
+/-! ### text helpers -/
+
+def strOf (n : List Char) : String := String.ofList n
+
+def hexOfChars (n : List Char) : String :=
+  bytesToHex (n.map fun c => BitVec.ofNat 8 c.toNat)
+
+def charsOfHex (s : String) : Option (List Char) :=
+  (hexToBytes s).bind fun bs =>
+    if bs.all (fun b => b.toNat < 128) then some (bs.map fun b => Char.ofNat b.toNat) else none
+
+/-- splits at commas that are not inside parentheses -/
+def splitTop (s : List Char) : List (List Char) :=
+  let rec go (s : List Char) (depth : Nat) (cur : List Char) (acc : List (List Char)) :=
+    match s with
+    | [] => (cur.reverse :: acc).reverse
+    | c :: r =>
+      if c = '(' then go r (depth + 1) (c :: cur) acc
+      else if c = ')' then go r (depth - 1) (c :: cur) acc
+      else if c = ',' ∧ depth = 0 then go r depth [] (cur.reverse :: acc)
+      else go r depth (c :: cur) acc
+  go s 0 [] []
+
+/-- `name(args)` → (name, args split at top-level commas); a bare name has no args -/
+def call (s : List Char) : Option (List Char × List (List Char)) :=
+  match s.span (· ≠ '(') with
+  | (name, []) => some (name, [])
+  | (name, _ :: rest) =>
+    match rest.reverse with
+    | ')' :: inner => some (name, splitTop inner.reverse)
+    | _ => none
+
+def natOf (s : List Char) : Option Nat := (strOf s).toNat?
+def intOf (s : List Char) : Option Int := (strOf s).toInt?
+def flagOf (s : List Char) : Option Bool := parseBool (strOf s)
+def optIntOf (s : List Char) : Option (Option Int) :=
+  if s = "none".toList then some none else (intOf s).map some
+
+def sizeOf? (s : List Char) : Option Size := do
+  let (n, args) ← call s
+  match strOf n, args with
+  | "any", [] => some .any
+  | "fix", [a, e] => do some (.fix (← natOf a) (← flagOf e))
+  | "range", [a, b, e] => do some (.range (← natOf a) (← natOf b) (← flagOf e))
+  | _, _ => none
+
+def tagOf (s : List Char) : Option (Option Tag) :=
+  if s = "none".toList then some none else
+  match s with
+  | k :: r => do
+    let n ← natOf r
+    if k = 'u' then some (some (.universal n))
+    else if k = 'a' then some (some (.application n))
+    else if k = 'c' then some (some (.contextSpecific n))
+    else if k = 'p' then some (some (.priv n))
+    else none
+  | [] => none
+
+def litOf (s : List Char) : Option Lit :=
+  match s with
+  | 'b' :: r => (flagOf r).map .bool
+  | 'i' :: r => (intOf r).map .int
+  | 's' :: r => (charsOfHex (strOf r)).map .str
+  | 'o' :: r => (hexToBytes (strOf r)).map fun bs => .octets (bs.map (·.toNat))
+  | 'e' :: r =>
+    match r.span (· ≠ '.') with
+    | (a, _ :: b) => some (.enumVariant a b)
+    | _ => none
+  | _ => none
+
+def constsOf (s : List Char) : Option (List (Name × Int)) :=
+  if s = ['-'] then some [] else
+  ((strOf s).splitOn ":").mapM fun c =>
+    match c.toList.span (· ≠ '=') with
+    | (n, _ :: v) => (intOf v).map fun i => (n, i)
+    | _ => none
+
+def charsetOf (s : List Char) : Option Charset :=
+  match strOf s with
+  | "utf8" => some .utf8 | "numeric" => some .numeric | "printable" => some .printable
+  | "ia5" => some .ia5 | "visible" => some .visible | _ => none
+
+def typeOf : Nat → List Char → Option AType
+  | 0, _ => none
+  | fuel + 1, s => do
+    let (n, args) ← call s
+    match strOf n, args with
+    | "bool", [] => some .boolean
+    | "null", [] => some .null
+    | "int", [a, b, e, cs] => do
+      some (.integer (← optIntOf a) (← optIntOf b) (← flagOf e) (← constsOf cs))
+    | "str", [c, sz] => do some (.string (← sizeOf? sz) (← charsetOf c))
+    | "oct", [sz] => do some (.octetString (← sizeOf? sz))
+    | "bits", [sz] => do some (.bitString (← sizeOf? sz))
+    | "opt", [t] => do some (.optional (← typeOf fuel t))
+    | "def", [t, l] => do some (.default (← typeOf fuel t) (← litOf l))
+    | "seqof", [sz, t] => do some (.sequenceOf (← typeOf fuel t) (← sizeOf? sz))
+    | "setof", [sz, t] => do some (.setOf (← typeOf fuel t) (← sizeOf? sz))
+    | "ref", [nm, tg] => do some (.complex nm (← tagOf tg))
+    | _, _ => none
+
+/-- constants of every integer of the spec, in order of appearance (what the harness hands to the
+    real `Field::with_constants`), and the type without them -/
+def stripConsts : AType → AType × List (Name × Int)
+  | .integer a b e cs => (.integer a b e [], cs)
+  | .optional t => let (t', cs) := stripConsts t; (.optional t', cs)
+  | .default t v => let (t', cs) := stripConsts t; (.default t' v, cs)
+  | .sequenceOf t s => let (t', cs) := stripConsts t; (.sequenceOf t' s, cs)
+  | .setOf t s => let (t', cs) := stripConsts t; (.setOf t' s, cs)
+  | t => (t, [])
+
+/-- a spec the harness can turn into a `RustType`: an integer with an open bound is a `u64` -/
+def representable : AType → Bool
+  | .integer (some _) (some _) _ _ => true
+  | .integer a b _ _ => decide (0 ≤ a.getD 0) && decide (0 ≤ b.getD 0)
+  | .optional t | .default t _ | .sequenceOf t _ | .setOf t _ => representable t
+  | _ => true
+
+def fieldOfSpec (spec : String) : Option FieldIn :=
+  match spec.splitOn ";" with
+  | [t, tg] => do
+    let ty ← typeOf (t.length + 1) t.toList
+    let tag ← tagOf tg.toList
+    if !representable ty then none else
+    let (ty', cs) := stripConsts ty
+    some { ty := ty', tag := tag, consts := cs }
+  | _ => none
+
+/-! ### rendering -/
+
+def hex2 (n : Nat) : String := String.ofList [hexDigit (n / 16 % 16), hexDigit (n % 16)]
+
+def tokStr : Tok → String
+  | .ident s => "i:" ++ strOf s
+  | .num n => "n:" ++ toString n
+  | .hex n => "n:0x" ++ hex2 n
+  | .str s => "s:" ++ hexOfChars s
+  | .punct c => "p:" ++ String.singleton c
+  | .lp => "(" | .rp => ")" | .lb => "[" | .rb => "]"
+
+def sizeStr : Size → String
+  | .any => "any"
+  | .fix n e => s!"fix({n},{boolStr e})"
+  | .range a b e => s!"range({a},{b},{boolStr e})"
+
+def tagStr : Option Tag → String
+  | none => "none"
+  | some (.universal n) => s!"u{n}"
+  | some (.application n) => s!"a{n}"
+  | some (.contextSpecific n) => s!"c{n}"
+  | some (.priv n) => s!"p{n}"
+
+def litStr : Lit → String
+  | .bool b => "b" ++ boolStr b
+  | .int i => "i" ++ toString i
+  | .str s => "s" ++ hexOfChars s
+  | .octets bs => "o" ++ bytesToHex (bs.map fun b => BitVec.ofNat 8 b)
+  | .enumVariant a b => "e" ++ strOf a ++ "." ++ strOf b
+
+def optIntStr : Option Int → String
+  | none => "none"
+  | some i => toString i
+
+def csStr : Charset → String
+  | .utf8 => "utf8" | .numeric => "numeric" | .printable => "printable" | .ia5 => "ia5"
+  | .visible => "visible"
+
+def typeStr : AType → String
+  | .boolean => "bool"
+  | .null => "null"
+  | .integer a b e cs =>
+    let c := if cs.isEmpty then "-" else
+      String.intercalate ":" (cs.map fun (n, v) => strOf n ++ "=" ++ toString v)
+    s!"int({optIntStr a},{optIntStr b},{boolStr e},{c})"
+  | .string sz cs => s!"str({csStr cs},{sizeStr sz})"
+  | .octetString sz => s!"oct({sizeStr sz})"
+  | .bitString sz => s!"bits({sizeStr sz})"
+  | .optional t => s!"opt({typeStr t})"
+  | .default t v => s!"def({typeStr t},{litStr v})"
+  | .sequenceOf t sz => s!"seqof({sizeStr sz},{typeStr t})"
+  | .setOf t sz => s!"setof({sizeStr sz},{typeStr t})"
+  | .complex n tg => s!"ref({(strOf n).replace " " ""},{tagStr tg})"
+
+def roleStr (r : Role) : String := typeStr r.ty ++ ";" ++ tagStr r.tag
+
+/-! ### lexer for the `rt` op (the subset of Rust's token grammar that attributes use) -/
+
+def isIdStart (c : Char) : Bool := c.isAlpha || c == '_'
+def isIdCont (c : Char) : Bool := c.isAlphanum || c == '_'
+
+def hexNat (s : List Char) : Option Nat :=
+  s.foldlM (fun acc c => (hexVal c).map fun v => acc * 16 + v) 0
+
+/-- `none` = not lexable by this subset (the driver then answers `skip`) -/
+def lex : Nat → List Char → Option (List Tok)
+  | 0, _ => none
+  | _, [] => some []
+  | fuel + 1, c :: r =>
+    if c = ' ' ∨ c = '\n' ∨ c = '\t' then lex fuel r
+    else if c = '(' then (lex fuel r).map (.lp :: ·)
+    else if c = ')' then (lex fuel r).map (.rp :: ·)
+    else if c = '[' then (lex fuel r).map (.lb :: ·)
+    else if c = ']' then (lex fuel r).map (.rb :: ·)
+    else if isIdStart c then
+      let (w, rest) := (c :: r).span isIdCont
+      -- byte / raw string and byte char literals (`b"…"`, `r"…"`, `b'a'`) are outside the subset
+      if (w == ['b'] || w == ['r'] || w == ['b', 'r']) &&
+          (match rest with | d :: _ => d == '"' || d == '\'' || d == '#' | [] => false) then none else
+      (lex fuel rest).map (.ident w :: ·)
+    else if c.isDigit then
+      match c, r with
+      | '0', 'x' :: r1 =>
+        let (w, rest) := r1.span fun d => (hexVal d).isSome
+        if w.isEmpty || (match rest with | d :: _ => isIdCont d | [] => false) then none else
+        (hexNat w).bind fun n => (lex fuel rest).map (.hex n :: ·)
+      | _, _ =>
+        let (w, rest) := (c :: r).span Char.isDigit
+        -- a suffix, a float or an exponent is outside the subset
+        match rest with
+        | d :: _ => if isIdCont d then none else
+            (natOf w).bind fun n => (lex fuel rest).map (.num n :: ·)
+        | [] => (natOf w).bind fun n => (lex fuel rest).map (.num n :: ·)
+    else if c = '"' then
+      let (w, rest) := r.span (· ≠ '"')
+      if w.any (· = '\\') then none else
+      match rest with
+      | _ :: rest' => (lex fuel rest').map (.str w :: ·)
+      | [] => none
+    else if c = ',' ∨ c = '.' ∨ c = ':' ∨ c = '-' ∨ c = '<' ∨ c = '>' ∨ c = '=' ∨ c = ';' ∨ c = '+'
+        ∨ c = '*' ∨ c = '!' ∨ c = '&' ∨ c = '|' ∨ c = '#' ∨ c = '?' ∨ c = '@' ∨ c = '^' ∨ c = '%'
+        ∨ c = '~' ∨ c = '/' ∨ c = '$' then
+      (lex fuel r).map (.punct c :: ·)
+    else none
+
+/-- groups must nest properly, parenthesis with parenthesis, bracket with bracket; the stack
+    holds `true` for an open `(` and `false` for an open `[` -/
+def balancedS : List Bool → List Tok → Bool
+  | st, [] => st.isEmpty
+  | st, .lp :: r => balancedS (true :: st) r
+  | st, .lb :: r => balancedS (false :: st) r
+  | true :: st, .rp :: r => balancedS st r
+  | false :: st, .rb :: r => balancedS st r
+  | _, .rp :: _ => false
+  | _, .rb :: _ => false
+  | st, _ :: r => balancedS st r
+
+def balanced (_ : Nat) (ts : List Tok) : Bool := balancedS [] ts
+
+/-- string literals are printed raw between quotes: the token-level printer is faithful only when
+    no character needs escaping -/
+def plain : AType → Bool
+  | .default t (.str s) => plain t && !(s.any fun c => c = '"' ∨ c = '\\' ∨ c.toNat < 32)
+  | .optional t | .default t _ | .sequenceOf t _ | .setOf t _ => plain t
+  | _ => true
+
+def handle (args : List String) : String :=
+  match args with
+  | ["print", spec] =>
+    if spec.toList.any (fun c => c.toNat ≥ 128) then "skip" else
+    match fieldOfSpec spec with
+    | none => "bad-op"
+    | some f =>
+      if !plain f.ty then "skip" else
+      "ok " ++ String.intercalate " " ((fieldToks f).map tokStr)
+  | ["prt", spec] =>
+    match fieldOfSpec spec with
+    | none => "bad-op"
+    | some f =>
+      if !plain f.ty then "skip" else
+      -- the Rust type the generator prints for a top-level reference is the referenced name
+      let rustTy := match f.ty with | .complex n _ => n | _ => []
+      match parseField rustTy (fieldToks f) with
+      | some r => "ok " ++ roleStr r
+      | none => "err parse"
+  | ["rt", attrHex, tyHex] =>
+    match charsOfHex attrHex, charsOfHex tyHex with
+    | some text, some ty =>
+      match lex (text.length + 1) text with
+      | none => "skip"
+      | some toks =>
+        if !balanced 0 toks then "err lex" else
+        match parseField (ty.filter (· ≠ ' ')) toks with
+        | some r => "ok " ++ roleStr r
+        | none => "err parse"
+    | _, _ => "skip"
+  | "reparse" :: _ => "skip"
+  | _ => "bad-op"
+
 end Driver.AttrStream
